@@ -126,3 +126,11 @@ impl http_datagram_codec::Encoder for Encoder {
         Some(encoded.freeze())
     }
 }
+
+#[cfg(trusttunnel_verif)]
+impl Decoder {
+    /// Octets of an incomplete request record held back (verification accessor)
+    pub(crate) fn verif_buffered(&self) -> usize {
+        self.buffer.len()
+    }
+}
